@@ -306,6 +306,18 @@ pub fn stress_inputs() -> Vec<(String, String)> {
             add(&format!("deep-{}-{}-as-macro-argument", what, n), format!(".macro mm\n.dw @0\n.endm\nmm {}1{}", "(".repeat(n), ")".repeat(n)));
         }
     }
+    // deep nesting behind a literal: a guard that scans the line for quotes, comment characters and escapes
+    // must see the line the way the grammar does (which knows no escapes; a quote of the other kind, a
+    // backslash, a comment character inside a literal are plain characters)
+    for n in [1000usize, 30000] {
+        for (lt, lit) in [("string-ending-in-backslash", "\"\\\""), ("char-backslash", "'\\'"), ("string-with-apostrophe", "\"it's\""), ("char-double-quote", "'\"'"), ("string-with-semicolon", "\"a;b\""), ("string-with-slashes", "\"//\""), ("string-with-comment-opener", "\"/*\""), ("char-semicolon", "';'"), ("string-with-two-apostrophes", "\"'a'\""), ("empty-string", "\"\"")] {
+            add(&format!("deep-parentheses-{}-behind-{}", n, lt), format!(".db {}, {}1{}", lit, "(".repeat(n), ")".repeat(n)));
+            add(&format!("deep-unary-chain-{}-behind-{}", n, lt), format!(".db {}, {}1", lit, "-~".repeat(n / 2)));
+            add(&format!("deep-parentheses-{}-between-{}", n, lt), format!(".db {}, {}1{}, {}", lit, "(".repeat(n), ")".repeat(n), lit));
+        }
+        add(&format!("deep-parentheses-{}-added-to-char-backslash", n), format!("ldi r16, '\\' + {}1{}", "(".repeat(n), ")".repeat(n)));
+        add(&format!("deep-parentheses-{}-behind-message-string", n), format!(".message \"don't\"\n.dw {}1{}", "(".repeat(n), ")".repeat(n)));
+    }
     for n in [10usize, 1000, 10000] {
         add(&format!("nested-if-{}", n), format!("{}nop\n{}", ".if 1\n".repeat(n), ".endif\n".repeat(n)));
         add(&format!("nested-if-unclosed-{}", n), ".if 0\n".repeat(n));
